@@ -664,6 +664,15 @@ func runScenario(sc explore.Scenario, bound int) {
 
 func main() {
 	res = report.Init("C08", "model_checking")
+	if report.FreeRun > 0 {
+		explore.FreeRuns = report.FreeRun
+		vclock.SetFrozen()
+		for _, s := range scenarios() {
+			runScenario(s.sc, s.bound)
+		}
+		res.Add("free_runs", int64(explore.FreeRunsDone))
+		res.Finish()
+	}
 	if report.ReplayF != "" {
 		replay()
 		return
